@@ -16,6 +16,7 @@
 import PgProofs.GenoIter
 import PgProofs.GenoValid
 import PgProofs.GenoValidate
+import PgProofs.GenoBind
 namespace Pg.Geno
 
 /-! ### Full statements -/
@@ -59,6 +60,14 @@ theorem C11_validate (g : Spec) (hw : g.wf = true) (d : DNA) (hd : hnorm d = tru
     g.validate d = true ↔ Valid g d := by
   unfold Valid
   rw [validate_eq_valid g hw d hd]
+
+/-- Binding (`DNA(..., spec=g)` / `use_spec`) accepts exactly the members, for every spec, on
+every DNA outside the known defect F20c (`floatLeaves`: no float-valued node has children). The
+full statement `C11_bind_Full` is refuted below by exactly such a DNA. -/
+theorem C11_bind_partial (g : Spec) (d : DNA) (hd : floatLeaves d = true) :
+    g.bind d = true ↔ Valid g d := by
+  unfold Valid
+  rw [bind_eq_valid g d hd]
 
 /-! ### Proved: specs without multi-choices (spaces, single choices, conditional sub-spaces of any
 depth and width) -/
@@ -140,7 +149,7 @@ def exampleSpec : Spec :=
 
 example : exampleSpec.finite = true ∧ exampleSpec.wf = true ∧ exampleSpec.noMulti = true := by decide
 example : exampleSpec.all.length = 14 := by decide
-example : ∀ d ∈ exampleSpec.all, hnorm d = true := by decide
+example : ∀ d ∈ exampleSpec.all, hnorm d = true ∧ floatLeaves d = true := by decide
 example : exampleSpec.iter 15 = some (exampleSpec.all, true) := by decide
 
 /-- Instances of the full statements on multi-choices (all four `distinct × sorted` modes, with a
